@@ -66,7 +66,11 @@ GtlStep ==
   /\ t <= NT /\ st = "gtl" /\ k <= Len(Tr.tl)
   /\ Tr.inb => Range(Tr.nbr[k]) = Range(Tr.nbrF[k])
   /\ \A x \in Range(Tr.nbr[k]) : x \in 1..Len(Tr.tl)
-  /\ LET r == MergeStep(k, Tr.nbr[k], bmap, bxs) IN bmap' = r.bmap /\ bxs' = r.bxs
+  \* the neighbours are taken in the order of the lines (as coded before the repair of GridOrderTies: in the order
+  \* Plane.find answered)
+  /\ LET nb == IF "GridOrderTies" \in Dev THEN Tr.nbr[k]
+               ELSE SeqOfSet(Range(Tr.nbr[k]), LAMBDA a, b : a < b)
+         r == MergeStep(k, nb, bmap, bxs) IN bmap' = r.bmap /\ bxs' = r.bxs
   /\ k' = k + 1 /\ UNCHANGED <<t, st, cur, lines, heap, live, dn>>
 GtlCollect ==
   /\ t <= NT /\ st = "gtl" /\ k > Len(Tr.tl)
